@@ -304,6 +304,7 @@ func kfArrayFor(args []KeyBuilderStage) (KeyBuilderStage, error) {
 	}
 
 	const MAX_ITERATIONS = 1_000_000
+	const MAX_OUTPUT_BYTES = 64 * 1024 * 1024 // a growing value exhausts memory long before MAX_ITERATIONS
 
 	return func(context KeyBuilderContext) string {
 		val := args[0](context)
@@ -327,6 +328,9 @@ func kfArrayFor(args []KeyBuilderStage) (KeyBuilderStage, error) {
 				sb.WriteRune(ArraySeparator)
 			}
 			sb.WriteString(val)
+			if sb.Len() > MAX_OUTPUT_BYTES { // Prevent memory-crash
+				return "<INF>"
+			}
 
 			val = sub.Eval(args[2], val, sIdx)
 
